@@ -834,6 +834,22 @@ add({"name": "CatalogEntry_has_name", "file": "dfs/dfs_catalog.cc", "anchor": r"
                (r"const std::string trimmed_name\(stringutil::rtrim\(name\(\)\)\);", "const struct cstr trimmed_name = cstr_rtrim(CatalogEntry_name(self));", 1),
                (r"stringutil::case_insensitive_equal\(wanted\.name, trimmed_name\)", "case_insensitive_equal(&wanted->name, &trimmed_name)", 1)]})
 
+# ---- afsp.cc / driveselector.cc (C15: an omitted drive or directory defaults to --drive / --dir, Opus volume letters) --------
+add({"name": "VolumeSelector_to_string", "file": "dfs/driveselector.cc", "anchor": r"std::string VolumeSelector::to_string\(\) const",
+     "sig": "static struct cstr VolumeSelector_to_string(const struct VolumeSelectorM *self)",
+     "rules": [(r"std::string result = surface_\.to_string\(\);", "struct cstr result = surface_to_string_model(self->surface_);", 1),
+               (r"if \(subvolume_\)", "if (self->subvolume_.has)", 1), (r"result\.push_back\(\*subvolume_\);", "cstr_push(&result, self->subvolume_.val);", 1)]})
+add({"name": "afsp_drive_prefix", "file": "dfs/afsp.cc", "anchor": r"string drive_prefix\(DFS::VolumeSelector vol\)",
+     "sig": "static struct cstr afsp_drive_prefix(const struct VolumeSelectorM *vol)",
+     "rules": [(r"string result;", "struct cstr result; result.n = 0;", 1), (r"result\.reserve\([^;]*\);", "/* reserve dropped */", "=0or1"),
+               (r"result\.push_back\(([^;]*)\);", r"cstr_push(&result, \1);", ">=1"),
+               (r"result\.append\(vol\.to_string\(\)\);", "cstr_append(&result, VolumeSelector_to_string(vol));", "=0or1"),
+               (r"result\.append\(vol\.surface\(\)\.to_string\(\)\);", "cstr_append(&result, surface_to_string_model(vol->surface_));", "=0or1")]})
+add({"name": "afsp_directory_prefix", "file": "dfs/afsp.cc", "anchor": r"string directory_prefix\(char directory\)",
+     "sig": "static struct cstr afsp_directory_prefix(char directory)",
+     "rules": [(r"string result\(2, '\.'\);", "struct cstr result; result.n = 2; result.d[0] = '.'; result.d[1] = '.';", 1),
+               (r"result\[0\] = directory;", "result.d[0] = directory;", 1)]})
+
 # ---- fsp.cc (C15: `type`/`list`/`dump` find a file by :drive.dir.name): the directory/name split of parse_filename --------
 add({"name": "parse_dir_and_name", "file": "dfs/fsp.cc",
      "anchor": r"if \(name\.size\(\) [<>=!]+ \w+\)\s*\{\s*if \(name\[1\] == '\.'\)", "region_end": r"std::swap\(result, \*p\);",
@@ -895,7 +911,7 @@ add({"name": "space_add_initial_gap", "file": "dfs/cmd_space.cc",
      "anchor": r"\(std::optional<std::pair<int, int>> first_file\)",
      "sig": "static void space_add_initial_gap(const struct SpaceRoot *root, struct opt_pair first_file, _Bool *added_initial_gap_)",
      "pre": "#define added_initial_gap (*added_initial_gap_)\n", "post": "#undef added_initial_gap\n",
-     "rules": [(r"\bassert\(", "VERIF_ASSERT(", ">=0"),
+     "rules": [(r"\bassert\(", "VERIF_ASSERT(", ">=0"), (r"std::exchange\((\w+), ([^()]*)\)", r"verif_exchange_bool(&(\1), \2)", ">=0"),
                (r"auto following = root\.total_sectors\(\);", "sector_count_type following = root->total_sectors;", 1),
                (r"if \(first_file\)", "if (first_file.has)", 1),
                (r"const auto& ce\(catalogs\[first_file->first\]\[first_file->second\]\);", "const struct CatalogEntry *ce = catalogs_at(first_file.first, first_file.second);", 1),
@@ -943,9 +959,9 @@ add({"name": "opus_volume_extents", "file": "dfs/opus_cat.cc",
      "sig": "static void opus_volume_extents(struct OpusCatM *self)",
      "pre": "#define it (&h_locs[self->locations_n - 1 - ri_])\n#define total_disc_sectors_ (self->total_disc_sectors_)\n", "post": "#undef it\n#undef total_disc_sectors_\n",
      "rules": [(r"for \(auto it = locations_\.rbegin\(\);\s*it != locations_\.rend\(\);\s*\+\+it\)", "for (size_t ri_ = 0; ri_ < self->locations_n; ++ri_) OPUS_EXTENT_LOOP_CONTRACT", 1),
-               (r"it->start_sector\(\)", "VolumeLocation_start_sector(it)", ">=2"),
+               (r"it->start_sector\(\)", "VolumeLocation_start_sector(it)", ">=1"),
                (r"it->set_next_sector\(([^;]*)\);", r"VolumeLocation_set_next_sector(it, \1);", 1),
-               (r"std::ostringstream os;.*?throw DFS::BadFileSystem\(os\.str\(\)\);", "{ VERIF_THROW(BadFileSystem, 0); return; }", 1)],
+               (r"std::ostringstream os;.*?throw DFS::BadFileSystem\(os\.str\(\)\);", "{ VERIF_THROW(BadFileSystem, 0); return; }", ">=0")],
      "dropped": ["diagnostic text"]})
 
 # ---- dfs_catalog.cc (C02: title, cycle number, boot option; C14: the catalogue's total sector count) ------------------------
